@@ -49,6 +49,14 @@ def carver():
                 e['viab'] = 0                                                    # flip the viable verdict
         bad.append(('flip_viable_verdict', b))
         b = copy.deepcopy(c)
+        hit = False
+        for e in b['events']:
+            if e.get('ev') == 'tested' and e.get('m') not in (None, -1) and not hit:
+                e['m'] += 25                                                     # the recorded association is off by 2.5e-5
+                hit = True
+        if hit:
+            bad.append(('history_measure_value_off', b))
+        b = copy.deepcopy(c)
         labs = [r[0] for r in b['out_tr'] if r[0] != 0]
         multi = [l for l in set(labs) if labs.count(l) >= 2]
         if not multi:
